@@ -56,9 +56,12 @@ META = {
             "configuration (validator_steps_exponential: >= 2^n steps on a quadratic-size family; C09_steps_refuted). Every run: real "
             "parse_and_optimize (child process, catch_unwind, wall clock) on the shipped grammars, their token-level mutants, prefixes, byte damage, "
             "numeric / PEEK / escape edge cases, unterminated and unbalanced constructs, non-ASCII, NUL, long and deeply nested texts, random garbage and "
-            "damaged generated grammars, with and without grammar-extras; oracle: outcome class, every error location valid, all renderings; extracted "
+            "damaged generated grammars, grammars around rule-reference cycles, with and without grammar-extras; oracle: outcome class, every error location valid, all renderings; extracted "
             "model vs implementation on class, error multiset (kind, location) and docs::consume; extracted shape_ok on every real forest. The model "
-            "follows the tree: the harness probes which repairs (C09's and those of C06 / C07 that touch modelled functions) are present.",
+            "follows the tree: the harness probes which repairs (C09's and those of C06 / C07 that touch modelled functions) are present. When "
+            "implementation and model disagree, an escalated search derives texts from the disagreeing ones (slices, first-position skeletons, added "
+            "skip-until rules and callers, mutants) and evaluates the property on the real code for them (coverage.escalated_search)."
+            " Generated grammars include rule-reference cycles through every first-position operator, entered from rules sorting before/between/after the members, with skip-until rules over them; when the real front end accepts what the model rejects, grammars derived from the disagreeing text (skip-until rules and callers around the suspect rules) are run in guarded worker processes and an abort, panic or hang is the replay.",
     "note": "Trusted: Coq kernel; extraction (ExtrOcamlBasic only); harness/runner; the meta-parser itself is outside the model (its output forest is the "
             "model's input: shape checked dynamically, provable from C01/C14/C04); str/char/Vec/HashMap/number-parsing semantics by documented meaning; "
             "restore_on_err (no panic site) not modelled; native stack depth and memory are outside the model (measured: a few thousand nested "
@@ -94,12 +97,14 @@ def plan(tier, seed, repo):
     if tier == "quick":
         cmds = ["fixed"] + ["ship %s %d 120 60 %d 8" % (shlex.quote(repo), seed, k) for k in range(8)]
         cmds += ["rnd %d 4000" % (seed * 100 + i) for i in range(3)] + ["gen %d 350" % (seed * 100 + i) for i in range(2)]
+        cmds += ["cyc %d 1500" % (seed * 100 + i) for i in range(2)]
         cmds += ["deep 0 50 100 200 300", "deep 1 50 100 200 300"]
         expo = "expo 12 20 seq cho skip"
         scale = "scale 50 100 200"
     else:
         cmds = ["fixed big"] + ["ship %s %d 1500 600 %d 16 all" % (shlex.quote(repo), seed, k) for k in range(16)]
         cmds += ["rnd %d 60000" % (seed * 100 + i) for i in range(8)] + ["gen %d 4000" % (seed * 100 + i) for i in range(6)]
+        cmds += ["cyc %d 20000" % (seed * 100 + i) for i in range(6)]
         cmds += ["deep 0 50 100 200 300 500 1000", "deep 1 50 100 200 300 500 1000"]
         expo = "expo 10 24 seq cho skip"
         scale = "scale 50 100 200 400 800"
@@ -154,6 +159,58 @@ def case_text(case):
             out.append(t[i])
             i += 1
     return "".join(out)
+
+
+def esc_text(t):
+    return t.replace("\\", "\\\\").replace("\t", "\\t").replace("\n", "\\n").replace("\r", "\\r")
+
+
+def rule_count(text):
+    return len(re.findall(r"(?m)^[ \t]*[A-Za-z_][A-Za-z0-9_]*[ \t]*=", text))
+
+
+def disagreeing_locations(m):
+    """the error locations that only one side reports, as byte ranges"""
+    def locs(s):
+        out = set()
+        for a, b, p in re.findall(r"@(?:S(\d+)-(\d+)|P(\d+))", s):
+            out.add((int(a), int(b)) if a else (int(p), int(p)))
+        return out
+    a, b = locs(m["impl"]), locs(m["expected"])
+    return sorted(a ^ b)
+
+
+def escalate(hbin, runner, flags, model_m, seed, tier, tag=""):
+    """The search that follows a broken correspondence: starts from the (shortest, distinct) texts on which the implementation and the
+    model disagree, lets the harness derive texts from them that make the later stages walk through the part the two sides disagree on
+    (mode `escalate` of c09.rs), and evaluates the property's own oracle (worker process: panic / abort / hang / unlocated or
+    unrenderable error) on the real code.  Returns (mismatches of the derived cases, statistics)."""
+    picks, seen = [], set()
+    # impl accepts what the model refuses first: the later stages then run on something the validator should have stopped
+    def rank(m):
+        return (0 if m["impl"].startswith("class|rules") else 1 if m["impl"].startswith("class|") else 2, len(m["case"]))
+    for m in sorted(model_m, key=rank):
+        if m["impl"].startswith("shape|") or m["impl"].startswith("docs|"):
+            continue
+        t = case_text(m["case"])
+        if t in seen or len(t) > 20000:
+            continue
+        seen.add(t)
+        picks.append((t, disagreeing_locations(m)))
+        if len(picks) >= (6 if tier == "quick" else 20):
+            break
+    if not picks:
+        return [], {}
+    with tempfile.NamedTemporaryFile("w", suffix=".esc", delete=False) as f:
+        for t, locs in picks:
+            f.write("%s\t%s\n" % (esc_text(t), ",".join("%d-%d" % l for l in locs)))
+        path = f.name
+    mism, stats, _ = run_cases(hbin, runner, flags, ["escalate %s %d %d" % (shlex.quote(path), seed, 1500 if tier == "quick" else 6000)], timeout=900)
+    os.unlink(path)
+    for x in mism:
+        x["case"] = tag + x["case"]
+    stats["escalated_from_texts"] = len(picks)
+    return mism, stats
 
 
 def run(tier, seed, replay=None):
@@ -229,12 +286,38 @@ def run(tier, seed, replay=None):
     if xrc == 0:
         xbin = os.path.join(xdir, "c09")
         xflags = model_flags(probe(xbin), True)
-        xm, xstats, _ = run_cases(xbin, runner, xflags, ["fixed"] + ["rnd %d %d" % (seed * 100 + 50 + i, 3000 if tier == "quick" else 40000) for i in range(2)])
+        xm, xstats, _ = run_cases(xbin, runner, xflags, ["fixed"] + ["rnd %d %d" % (seed * 100 + 50 + i, 3000 if tier == "quick" else 40000) for i in range(2)]
+                                  + ["cyc %d %d extras" % (seed * 100 + 50, 800 if tier == "quick" else 20000)])
         for x in xm:
             x["case"] = "[grammar-extras] " + x["case"]
         mism += xm
     else:
         mism.append({"kind": "harness", "case": "extras", "impl": "harness does not build with grammar-extras", "expected": xout[-800:]})
+
+    # ---- escalated search: only when implementation and model disagree somewhere (nothing of this runs on a tree that agrees)
+    esc_stats, esc_found, esc_slow = {}, [], []
+    first_model = [m for m in mism if m["kind"] == "model"]
+    if first_model:
+        spec0 = set(m["case"] for m in mism if m["kind"] == "spec")
+        plain = [m for m in first_model if m["case"] not in spec0 and not m["case"].startswith("[grammar-extras] ")]
+        ext = [m for m in first_model if m["case"] not in spec0 and m["case"].startswith("[grammar-extras] ")]
+        em, esc_stats = escalate(hbin, runner, rflags, plain, seed, tier) if plain else ([], {})
+        if ext and xrc == 0 and not any(m["kind"] == "spec" for m in em):
+            em2, st2 = escalate(xbin, runner, xflags, ext, seed, tier, tag="[grammar-extras] ")
+            em += em2
+            for k, v in st2.items():
+                esc_stats[k] = esc_stats.get(k, 0) + v if isinstance(v, int) else v
+        # a derived text that is merely slow and has many rules may be the registered exponential class: counted, not judged here
+        for m in em:
+            if m["kind"] == "spec" and ("took " in m["impl"] or "no answer" in m["impl"]) and rule_count(case_text(m["case"])) > 16:
+                esc_slow.append(m)
+            else:
+                mism.append(m)
+                if m["kind"] == "spec":
+                    esc_found.append(m)
+        log("C09: escalated search from %d disagreeing texts: %d derived evaluations, %d failing observations%s" % (
+            esc_stats.get("escalated_from_texts", 0), esc_stats.get("evaluations", 0), len(esc_found),
+            " (%d slow many-rule texts left to the exponential-class measurement)" % len(esc_slow) if esc_slow else ""))
 
     # ---- classify
     by_class, other_spec, expo_spec = {}, [], []
@@ -298,10 +381,21 @@ def run(tier, seed, replay=None):
         worst = min(shape or model_m, key=lambda m: len(m["case"]))
         what = ("the token forest of the real meta-parser violates the shape invariant assumed by the theorems" if shape else
                 "correspondence broken: parse_and_optimize differs from coq/Front (flags %s)" % flags)
-        res.violation("%s on `%s`: impl `%s` vs model `%s` (%d such cases); no violation of the property itself was found for it" % (
-            what, case_text(worst["case"])[:200], worst["impl"][:200], worst["expected"][:200], len(model_m)),
-            {"theorem_or_correspondence": "C09 correspondence: impl vs extracted PV.Front.Frontend / shape_ok", "text": case_text(worst["case"]),
-             "impl": worst["impl"], "model": worst["expected"], "flags": flags}, no_failing_input=True)
+        if esc_found:
+            fail = min(esc_found, key=lambda m: len(m["case"]))
+            res.violation("%s on `%s`: impl `%s` vs model `%s` (%d such cases); the search that started from the disagreeing texts found a text on which the "
+                          "property itself fails: %s on `%s`" % (what, case_text(worst["case"])[:200], worst["impl"][:200], worst["expected"][:200], len(model_m),
+                                                                 fail["impl"][:200], case_text(fail["case"])[:300]),
+                          {"theorem_or_correspondence": "C09 correspondence: impl vs extracted PV.Front.Frontend / shape_ok; C09 oracle on the derived text",
+                           "text": case_text(fail["case"]), "impl": fail["impl"], "disagreeing_text": case_text(worst["case"]),
+                           "disagreeing_impl": worst["impl"], "model": worst["expected"], "flags": flags})
+        else:
+            res.violation("%s on `%s`: impl `%s` vs model `%s` (%d such cases); no violation of the property itself was found for it "
+                          "(escalated search: %d texts derived from %d disagreeing ones, all answered with rules or located errors in time)" % (
+                what, case_text(worst["case"])[:200], worst["impl"][:200], worst["expected"][:200], len(model_m),
+                esc_stats.get("evaluations", 0), esc_stats.get("escalated_from_texts", 0)),
+                {"theorem_or_correspondence": "C09 correspondence: impl vs extracted PV.Front.Frontend / shape_ok", "text": case_text(worst["case"]),
+                 "impl": worst["impl"], "model": worst["expected"], "flags": flags}, no_failing_input=True)
     for m in other_m[:3]:
         res.violation("harness failure: " + m["impl"], {"theorem_or_correspondence": "C09 correspondence (run)", "log": m["expected"]}, no_failing_input=True)
     if not thm["ok"]:
@@ -309,13 +403,16 @@ def run(tier, seed, replay=None):
                       {"theorem_or_correspondence": "coq/props/C09.v", "log": thm["log"][-3000:]}, no_failing_input=not by_class)
 
     res.coverage.update({
-        "evaluations": stats.get("evaluations", 0) + xstats.get("evaluations", 0),
-        "distinct_nontrivial": stats.get("distinct_nontrivial", 0) + xstats.get("distinct_nontrivial", 0),
+        "evaluations": stats.get("evaluations", 0) + xstats.get("evaluations", 0) + esc_stats.get("evaluations", 0),
+        "distinct_nontrivial": stats.get("distinct_nontrivial", 0) + xstats.get("distinct_nontrivial", 0) + esc_stats.get("distinct_nontrivial", 0),
         "rule": "texts: the 21 shipped grammars; token-level deletion / duplication / replacement mutants and byte damage of them (sampled, fewer for long "
                 "files), prefixes; counts {0..65536, > u32::MAX, huge} in {n} {n,} {,n} {m,n}; PEEK indices around i32 limits and huge; 40 escape forms in "
                 "strings / ^strings / char ranges / PUSH_LITERAL; unterminated, unbalanced, leading `|`, tags, NUL, BOM, non-ASCII; identifiers and "
                 "literals up to 10^5 (10^6 thorough) bytes; nesting to depth 300 (1000 thorough) on a 1 GiB and an 8 MiB stack; word soup, rule soup, "
-                "random scalar values, expression soup; damaged printed random grammars. One evaluation = one text through the real parse_and_optimize "
+                "random scalar values, expression soup; damaged printed random grammars; grammars around one cycle of rule references (direct / indirect, "
+                "length 1-4, through every operator the left-recursion walk enters or through references and choice alternatives only, entered from rules "
+                "that sort before / between / after the members, with `@{ (!x ~ ANY)* }` rules over members and entries, callers under repetitions, "
+                "WHITESPACE / COMMENT on a member; one in eight legal). One evaluation = one text through the real parse_and_optimize "
                 "(+ renderings, docs::consume, meta token forest) and, when the meta-parse succeeds, through the extracted model. non-trivial = "
                 "distinct text whose outcome is not `rules`",
         "exhaustive": False,
@@ -333,6 +430,17 @@ def run(tier, seed, replay=None):
         "exponential_growth": growth,
         "polynomial_scaling_ms": scale_rows,
         "panic_classes_found": {k: len(v) for k, v in by_class.items()},
+        "escalated_search": ({"ran": True, "from_disagreeing_texts": esc_stats.get("escalated_from_texts", 0), "derived_evaluations": esc_stats.get("evaluations", 0),
+                              "kinds": {k: v for k, v in esc_stats.items() if str(k).startswith("kind_")},
+                              "classes": {k: v for k, v in esc_stats.items() if str(k).startswith("class_")},
+                              "failing_observations": len(esc_found), "slow_many_rule_texts_not_judged": len(esc_slow),
+                              "stopped_early": esc_stats.get("escalated_stopped_early", 0),
+                              "rule": "per disagreeing text: the rules at the locations the two sides disagree on, what they refer to, then other rules (at most "
+                                      "10); for each the slice of the text it reaches, the first-position skeleton of that slice (references, choices, strings) "
+                                      "and the whole text, each extended by atomic skip-until rules over it, callers with it in first position / under every "
+                                      "repetition and predicate named to sort first and last, both, WHITESPACE / COMMENT; then token mutants and byte damage; "
+                                      "oracle = the property on the real code in a worker (panic, abort, no answer in 6 s, > 2 s, unlocated / unrenderable error)"}
+                             if first_model else {"ran": False, "why": "implementation and model agreed on every case"}),
     })
     res.assumptions = ["the token forest of the meta-parser has the shape of grammar.pest (assumed by the theorems, checked on every real parse of the run)",
                        "BUILTINS = the 19 fixed names + pest::unicode::unicode_property_names() (passed to the model by the harness)",
